@@ -1,5 +1,8 @@
 import CfdpVerif.Lemmas.InvDestFsFrame
 import CfdpVerif.Props.C17
+import CfdpVerif.Props.C10
+import CfdpVerif.Lemmas.PathFrameDest
+import CfdpVerif.Lemmas.EffectDest
 /-!
 # C05 — destination file equals the write-model of the accepted File Data PDUs
 
@@ -15,6 +18,11 @@ import CfdpVerif.Props.C17
   destination file — whose byte-level meaning is `C17_write_read` / `C17_write_frame*` /
   `C17_write_gap_zero` (read-back, frame, zero-filled gap).
 * `C05_completion_deletes_only_destination`: see `C12_dest_notice_of_completion`.
+* EVERY STATE, EVERY INPUT, EVERY HISTORY: `C05_untouched_path_all_histories` (a path that no Metadata PDU
+  names as destination keeps its initial content through any sequence of operations of any kind,
+  `Lemmas/PathFrameDest.lean`), `C05_call_effect` / `C05_op_effect` / `C05_file_data_effect` (what one call
+  can do to any path: nothing, delete it, write this call's File Data payload at its offset, or create /
+  truncate it for this call's Metadata PDU — `Lemmas/EffectDest.lean`), `C05_wf_all_histories`.
 -/
 set_option linter.unusedSimpArgs false
 set_option linter.unusedVariables false
@@ -169,5 +177,135 @@ example :
         p := { fileName := "/d", conf := { Hdr.empty with mode := .unack } },
         fs := [("/d", .file [])] })).fs = [("/d", .file [0, 0, 7, 8])] := by
   decide +kernel
+
+
+section AllHistories
+open Cfdp.C10 Cfdp.Dest.PathFrame
+
+/-! ## a path that no Metadata PDU names is never touched, for every history -/
+
+/-- the operation does not name `q` as a destination: a Metadata PDU handed to the handler carries a
+destination name that neither is `q` nor resolves to `q` (a directory joined with the source base
+name); every other operation qualifies -/
+def OpAvoids (q : String) : DOp → Prop
+  | .sm pkt => MdOk q pkt
+  | _ => True
+
+/-- **One call never touches a path that is not a destination.**  `q` is not the handler's current
+destination path and is not named by the Metadata PDU of this call (if any); `q ≠ "."`, the
+placeholder name of a transaction without Metadata.  Then whatever the operation — any PDU of any
+type and content, a call without PDU (timers), `get_next_packet`, a cancel request, a reset, a fault
+table change, an injected filestore rejection —, whether it returns or raises: the content of `q`
+(or its absence) is exactly what it was, and `q` is still not the destination path. -/
+theorem C05_untouched_path_step (env : Env) (op : DOp) (s : DestSt) (q : String) (v : Option Node)
+    (hq : q ≠ ".") (ho : OpAvoids q op) (h : PF q v s) : PF q v (op.run env s).2 := by
+  cases op with
+  | sm pkt => exact preserves_of_triple (stateMachine_spec q v hq env pkt ho) s h
+  | get => exact preserves_of_triple (getNextPacket_spec q v hq) s h
+  | cancel t => exact preserves_of_triple (cancelRequest_spec q v hq env t) s h
+  | reset => exact preserves_of_triple (reset_spec q v hq) s h
+  | setHandler c f =>
+    simp only [DOp.run]
+    cases setFaultHandler s.faults c f <;> exact h
+  | injectReject e => exact h
+
+/-- **Nothing is written to, created at or deleted from any path other than a destination path, for
+every history.**  Start from any handler state in which `q` is not the destination path (a new
+handler, in particular); let the peer, the link, the user and the filestore do anything, in any order
+and any number of times, as long as no Metadata PDU names `q` as its destination.  In every state
+reached the filestore has at `q` exactly what it had at the start. -/
+theorem C05_untouched_path_all_histories (env : Env) (s : DestSt) (q : String) (hq : q ≠ ".")
+    (hs : s.p.fileName ≠ q) (ops : List DOp) (hops : ∀ op ∈ ops, OpAvoids q op) :
+    (runOps env s ops).fs.get q = s.fs.get q := by
+  have key : ∀ (ops : List DOp) (s : DestSt) (v : Option Node), PF q v s → (∀ op ∈ ops, OpAvoids q op) →
+      PF q v (runOps env s ops) := by
+    intro ops
+    induction ops with
+    | nil => intro s v h0 _; exact h0
+    | cons op ops ih =>
+      intro s v h0 hops
+      simp only [runOps, List.foldl_cons]
+      exact ih _ v (C05_untouched_path_step env op s q v hq (hops op List.mem_cons_self) h0)
+        (fun o ho => hops o (List.mem_cons_of_mem _ ho))
+  have hinv := key ops s (s.fs.get q) ⟨rfl, hs⟩ hops
+  exact hinv.1
+
+/-- a new handler: every path but the placeholder qualifies -/
+example (fs0 : Fs) (q : String) (hq : q ≠ ".") :
+    PF q (fs0.get q) ({ fs := fs0, faults := defaultFaultTable } : DestSt) := ⟨rfl, fun h => hq h.symm⟩
+
+
+/-! ## the write model of one call, for every state and every input -/
+
+open Cfdp.Dest.Effect in
+/-- **What one `state_machine` call can do to a file.**  For every state of the receiver (well-formed
+filestore), every packet (any type, any content, or none) and every path `p`: after the call —
+returned or raised — the filestore has at `p` either what it had; or nothing (deleted by the
+disposition on cancellation, or absent before); or, if the packet is a File Data PDU, the old content
+with exactly that PDU's payload written at exactly its offset (`Fs.writeBytes`: zero-filled gap,
+read-back, frame — C17); or, if the packet is a Metadata PDU, an empty file.  Nothing else is
+possible: no other bytes, no other offset, no second write, no truncation by a File Data or EOF PDU. -/
+theorem C05_call_effect (env : Env) (pkt : Option Pdu) (s : DestSt) (p : String) (hw : Fs.C17.WF s.fs) :
+    Fs.C17.WF (stateOf (stateMachine env pkt s)).fs ∧
+    Allowed (s.fs.get p) pkt ((stateOf (stateMachine env pkt s)).fs.get p) :=
+  preserves_of_triple (Effect.stateMachine_spec p (s.fs.get p) env pkt) s ⟨hw, Or.inl rfl⟩
+
+open Cfdp.Dest.Effect in
+/-- the same for every operation of the user, the peer and the filestore; only `state_machine` with a
+File Data or Metadata PDU can put new content at a path -/
+theorem C05_op_effect (env : Env) (op : DOp) (s : DestSt) (p : String) (hw : Fs.C17.WF s.fs) :
+    Fs.C17.WF (op.run env s).2.fs ∧
+    Allowed (s.fs.get p) (match op with | .sm pkt => pkt | _ => none) ((op.run env s).2.fs.get p) := by
+  cases op with
+  | sm pkt => exact C05_call_effect env pkt s p hw
+  | get => exact preserves_of_triple (Effect.getNextPacket_spec p (s.fs.get p) none) s ⟨hw, Or.inl rfl⟩
+  | cancel t => exact preserves_of_triple (Effect.cancelRequest_spec p (s.fs.get p) none env t) s ⟨hw, Or.inl rfl⟩
+  | reset => exact preserves_of_triple (Effect.reset_spec p (s.fs.get p) none) s ⟨hw, Or.inl rfl⟩
+  | setHandler c f =>
+    simp only [DOp.run]
+    cases setFaultHandler s.faults c f <;> exact ⟨hw, Or.inl rfl⟩
+  | injectReject e => exact ⟨hw, Or.inl rfl⟩
+
+/-- the filestore stays a well-formed map for every history -/
+theorem C05_wf_all_histories (env : Env) (ops : List DOp) : ∀ (s : DestSt), Fs.C17.WF s.fs →
+    Fs.C17.WF (runOps env s ops).fs := by
+  induction ops with
+  | nil => intro s h; exact h
+  | cons op ops ih =>
+    intro s h
+    simp only [runOps, List.foldl_cons]
+    exact ih _ (C05_op_effect env op s "/" h).1
+
+open Cfdp.Dest.Effect in
+/-- **A File Data PDU writes its own bytes at its own offset, or nothing.**  If the path holds a file
+`old` before a call that is handed the File Data PDU `(off, data)`, it holds afterwards `old`
+unchanged, `old` with `data` written at `off`, or it is gone (the call also cancelled the transaction
+and the disposition deleted the file). -/
+theorem C05_file_data_effect (env : Env) (h : Hdr) (off : Nat) (data old : List UInt8) (s : DestSt) (p : String)
+    (hw : Fs.C17.WF s.fs) (hf : s.fs.get p = some (.file old)) :
+    let v := (stateOf (stateMachine env (some (.fd h off data)) s)).fs.get p
+    v = some (.file old) ∨ v = some (.file (Fs.writeBytes old data off)) ∨ v = none := by
+  have := (C05_call_effect env (some (.fd h off data)) s p hw).2
+  rw [hf] at this
+  rcases this with h1 | h1 | ⟨old', off', data', ⟨h', e⟩, ho, hv⟩ | ⟨⟨_, _, _, _, _, _, _, e⟩, _⟩
+  · exact Or.inl h1
+  · exact Or.inr (Or.inr h1)
+  · cases e; cases ho
+    exact Or.inr (Or.inl hv)
+  · cases e
+
+/-- non-vacuity: the File Data PDU of the earlier example, as a whole call of a receiving handler -/
+example :
+    (stateOf (stateMachine ⟨⟨⟨2, 2⟩, true, true, true, true,
+        [⟨⟨1, 2⟩, none, 256, false, false, .unack, 3, 1000, 3, 3, false, false, 1000, 3⟩], 1000⟩, 0⟩
+      (some (.fd ⟨.toRecv, .unack, false, false, ⟨1, 2⟩, ⟨2, 2⟩, ⟨7, 2⟩⟩ 2 [7, 8]))
+      { state := .busy, step := .RECEIVING_FILE_DATA,
+        p := { fileName := "/d", conf := { Hdr.empty with mode := .unack },
+               remoteCfg := some ⟨⟨1, 2⟩, none, 256, false, false, .unack, 3, 1000, 3, 3, false, false, 1000, 3⟩ },
+        fs := [("/d", .file [])] })).fs.get "/d" = some (.file (Fs.writeBytes [] [7, 8] 2)) := by
+  decide +kernel
+
+
+end AllHistories
 
 end Cfdp.C05
